@@ -21,6 +21,7 @@ func Transpile(elkRegex string, flags bitfield.BitField8) (string, diagnostic.Di
 	}
 
 	t := &transpiler{Flags: flags}
+	t.globalFlags()
 	t.transpileNode(ast)
 	if t.Errors != nil {
 		return "", t.Errors
@@ -176,6 +177,31 @@ func (t *transpiler) transpileNode(node ast.Node) {
 			t.newLocation(node.Span()),
 		)
 	}
+}
+
+// Write the flags of the regex literal that are supported by Go
+// as a leading flag group eg. `(?im)`.
+// Without it they would be silently dropped because the Go regex
+// is compiled from the transpiled source alone.
+func (t *transpiler) globalFlags() {
+	var hasVisibleFlags bool
+	for _, fl := range flag.Flags {
+		if t.Flags.HasFlag(fl) && flag.IsSupportedByGo(fl) {
+			hasVisibleFlags = true
+			break
+		}
+	}
+	if !hasVisibleFlags {
+		return
+	}
+
+	t.Buffer.WriteString(`(?`)
+	for _, fl := range flag.Flags {
+		if t.Flags.HasFlag(fl) && flag.IsSupportedByGo(fl) {
+			t.Buffer.WriteRune(flag.ToChar(fl))
+		}
+	}
+	t.Buffer.WriteRune(')')
 }
 
 func (t *transpiler) concatenation(node *ast.ConcatenationNode) {
